@@ -62,7 +62,8 @@ def scenario(draw) -> Dict[str, Any]:
         items.append((0, 1, {'kind': 'close'}))
     else:
         k = draw(st.integers(0, n - 1))
-        items.append((0, 1, {'kind': 'unregister', 'svc': k, 'await': draw(st.booleans())}))
+        items.append((0, 1, {'kind': 'unregister', 'svc': k, 'await': draw(st.booleans()),
+                             'fresh_object': draw(st.sampled_from([False, False, True]))}))
         if draw(st.integers(0, 3)) == 0:
             # the withdrawn service was registered only just before: probing ends 525 ms after the call, and its three
             # announcements (225 ms apart, not awaited by the application) are still going on when it is unregistered
@@ -248,5 +249,7 @@ def check(case: Dict[str, Any]) -> Dict[str, Any]:
         classes.append('withdrawn-while-still-announcing')
     if reborn:
         classes.append('registered-again-with-other-data-after-the-withdrawal')
+    if any(ev.get('kind') == 'unregister' and ev.get('fresh_object') for ev in case['events']):
+        classes.append('unregistered-with-a-rebuilt-serviceinfo')
     return {'nontrivial': queued_at_withdrawal, 'classes': classes, 'max': {'queries': len(run.queries)},
             'sample': {'case': case}}
